@@ -195,7 +195,13 @@ fn verify<C: Container>(c: &mut C, model: &mut [MModel]) -> Result<String, (&'st
                 format!("member {i}: length {} but only {} bytes are initialized (was {}, written {})", m.len(), bound, mm.len, mm.written),
             ));
         }
-        sig.push_str(&format!("{}{}", if m.len() < mm.len { "s" } else { "" }, m.len()));
+        if m.len() < mm.len {
+            return Err((
+                "member-truncated",
+                format!("member {i}: length dropped from {} to {} when {} bytes written from its start were recorded: initialized content outside the written range is lost", mm.len, m.len(), mm.written),
+            ));
+        }
+        sig.push_str(&format!("{}", m.len()));
         mm.len = m.len();
         mm.written = 0;
     }
